@@ -16,7 +16,7 @@ CONSTANTS Tasks, Stride, Seed, DoDump
 VARIABLES pc, task, first, res
 vars == <<pc, task, first, res>>
 
-VHash(v) == 100003 + Dot(v, SubSeq(<<1, 5, 7, 11, 13, 17, 19, 23, 29, 31, 37, 41>>, 1, Len(v)))
+VHash(v) == 100003 + DotFrom(v, [i \in 1..Len(v) |-> 7 * i * i + 3 * i + 1], 1)
 Keep(v, s) == VHash(v) % s = Seed % s
 
 Lines2 == {h \in NonZero(Lattice(3, 2)) : ~IsZeroV(NormalOf(h))}
